@@ -35,6 +35,25 @@ def runs(stream):
 
 
 def check_C01(p, stream, tk):
+    # the same stream once more with multi-character frames ("every frame type")
+    ST, SDS, DS = load()
+
+    class Wide(DS):
+        def __init__(self, s):
+            self.fr, self.i = [c * 2 for c in s], 0
+
+        def read(self):
+            if self.i >= len(self.fr):
+                return None
+            self.i += 1
+            return self.fr[self.i - 1]
+    try:
+        wide = mk(ST, p).tokenize(Wide(stream))
+        exp = [([c * 2 for c in d], a, b) for d, a, b in tk]
+        if [(list(d), a, b) for d, a, b in wide] != exp:
+            return "with 2-character frames the tokens are %r, expected %r" % ([(list(d), a, b) for d, a, b in wide][:3], exp[:3])
+    except Exception as e:  # noqa
+        return "tokenize on 2-character frames raised %s" % type(e).__name__
     prev_end = -1
     for d, a, b in tk:
         if not (0 <= a <= b < len(stream)):
@@ -155,6 +174,13 @@ def check_C08(p, stream, tk, ST=None, SDS=None, DS=None):
     r = mk(ST, p).tokenize(SDS(stream), callback=lambda d, a, b: cb.append((list(d), a, b)))
     if cb != lst:
         return "callback mode %r differs from list mode %r" % (cb, lst)
+    # a generator obtained first and drained after the tokenizer was used for something else
+    t2 = mk(ST, p)
+    g2 = t2.tokenize(SDS(stream), generator=True)
+    t2.tokenize(SDS("aAAaAAAAa"))
+    late = [(list(d), a, b) for d, a, b in g2]
+    if late != lst:
+        return "generator drained after another run of the same tokenizer gives %r, list mode %r" % (late[:3], lst[:3])
     whole = [(a, b) for _, a, b in tk]
     for cut in range(len(stream)):
         pre = [(a, b) for _, a, b in toks(ST, SDS, p, stream[:cut])]
